@@ -93,8 +93,12 @@ func (e *StorageEngine) Search(_ context.Context, cnr cid.ID, fs []objectcore.Se
 	)
 
 	if len(attrs) > 0 {
-		firstAttr = fs[0].Header()
 		firstFilter = &fs[0].SearchFilter
+		// objects lacking the primary attribute are ordered by ID only, there is
+		// no value to compare
+		if fs[0].Operation() != object.MatchNotPresent {
+			firstAttr = fs[0].Header()
+		}
 	}
 	cmpInt := firstAttr != "" && objectcore.IsIntegerSearchOp(fs[0].Operation())
 	res, more, err := objectcore.MergeSearchResults(count, firstAttr, cmpInt, sets, mores)
